@@ -187,7 +187,8 @@ type GenOpts struct {
 	NoStruct       bool
 	NoMap          bool
 	TemplateNames  bool
-	CaseTwins      bool // some struct names differ from another one by the case of the first letter only
+	EmptyStructs   bool              // one named struct in eight has no member at all: ()<Name>
+	CaseTwins      bool              // some struct names differ from another one by the case of the first letter only
 	StructPool     *StructPool       // shared struct definitions (same name => same definition)
 	MaxAnonNest    int               // max directly nested anonymous tuples (0 = unlimited)
 	MinTuple       int               // minimum number of tuple members
@@ -282,6 +283,9 @@ func genType(rng *rand.Rand, o GenOpts, depth int, anon int) *Type {
 				return o.StructPool.defs[names[rng.Intn(len(names))]]
 			}
 			n := 1 + rng.Intn(o.Width)
+			if o.EmptyStructs && rng.Intn(8) == 0 {
+				n = 0
+			}
 			m := make([]*Type, n)
 			fields := make([]string, n)
 			used := map[string]bool{}
